@@ -231,6 +231,9 @@ func makeCode(rng *Rand, alphabet int, used map[int]bool, cov map[string]int) pc
 			syms[0], syms[1] = syms[1], syms[0]
 		}
 		cov[fmt.Sprintf("code:simple%d", len(syms))]++
+		if len(syms) == 2 && syms[0] > syms[1] {
+			cov["code:simple2-larger-symbol-first"]++
+		}
 		if syms[0] < 2 {
 			cov["code:simple-1bit-symbol"]++
 		}
@@ -420,6 +423,8 @@ type eimgOpts struct {
 	maxCache int
 	copyProb int // percent
 	cov      map[string]int
+	forceCB  int   // > 0: exactly this many cache bits
+	forceDCs []int // distance codes that must each be used by some copy token (as soon as they fit)
 }
 
 func genEimg(rng *Rand, o eimgOpts) *peimg {
@@ -428,6 +433,10 @@ func genEimg(rng *Rand, o eimgOpts) *peimg {
 	if o.maxCache > 0 && rng.Intn(2) == 0 {
 		e.cb = rng.Range(1, o.maxCache)
 	}
+	if o.forceCB > 0 {
+		e.cb = o.forceCB
+	}
+	pendingDC := append([]int{}, o.forceDCs...)
 	o.cov[fmt.Sprintf("cache-bits:%d", e.cb)]++
 	var cache []uint32
 	if e.cb > 0 {
@@ -447,12 +456,21 @@ func genEimg(rng *Rand, o eimgOpts) *peimg {
 	}
 	for pos := 0; pos < total; {
 		g := o.gidx(pos%o.w, pos/o.w)
+		if g > o.cov["max:group-index-referenced-by-a-token"] {
+			o.cov["max:group-index-referenced-by-a-token"] = g
+		}
 		r := rng.Intn(100)
+		forced := 0
+		if len(pendingDC) > 0 && planeDist(o.w, pendingDC[0]) <= pos && total-pos > len(pendingDC) {
+			forced = pendingDC[0]
+			pendingDC = pendingDC[1:]
+			r = -1
+		}
 		switch {
 		case pos > 0 && r < o.copyProb:
 			// backward reference
 			var dc int
-			for try := 0; ; try++ {
+			for try := 0; forced == 0; try++ {
 				switch rng.Intn(4) {
 				case 0, 1:
 					dc = rng.Range(1, 120)
@@ -469,8 +487,14 @@ func genEimg(rng *Rand, o eimgOpts) *peimg {
 					break
 				}
 			}
+			if forced != 0 {
+				dc = forced
+			}
 			dist := planeDist(o.w, dc)
 			rem := total - pos
+			if forced != 0 {
+				rem = min(rem, 2) // keep room for the remaining forced codes
+			}
 			var ln int
 			switch rng.Intn(5) {
 			case 0:
@@ -581,7 +605,22 @@ func litGen(rng *Rand, mask uint32, fix func(uint32) uint32) func(*Rand, int) ui
 	}
 }
 
-func genPlan(rng *Rand, maxDim int) *pplan {
+// planOpts forces features of a generated plan (zero value: everything random).
+type planOpts struct {
+	w, h       int
+	transforms []ptrans // typ (+ bits / ncolors) forced, sub-images generated
+	fixTs      bool     // use exactly `transforms` (possibly none)
+	metaBits   int      // > 0: meta image with these bits
+	metaGroups int      // wanted number of groups (with metaBits)
+	metaHigh   bool     // half of the tiles refer to a group with index >= 256
+	cacheBits  int      // > 0: main image cache bits
+	allDCs     bool     // every distance code 1..120 is used
+	randomLits bool     // main literals uniformly random
+}
+
+func genPlan(rng *Rand, maxDim int) *pplan { return genPlanOpts(rng, maxDim, planOpts{}) }
+
+func genPlanOpts(rng *Rand, maxDim int, po planOpts) *pplan {
 	p := &pplan{cov: map[string]int{}}
 	p.w, p.h = rng.Range(1, maxDim), rng.Range(1, maxDim)
 	switch rng.Intn(8) {
@@ -591,6 +630,9 @@ func genPlan(rng *Rand, maxDim int) *pplan {
 		p.h = 1
 	case 2:
 		p.w = rng.Pick(2, 3, 4, 5, 7, 8, 9, 15, 16, 17)
+	}
+	if po.w > 0 {
+		p.w, p.h = po.w, po.h
 	}
 	p.alpha = rng.Intn(2)
 	sub := func(w, h int, lit func(*Rand, int) uint32) *peimg {
@@ -608,10 +650,24 @@ func genPlan(rng *Rand, maxDim int) *pplan {
 	if rng.Intn(3) == 0 {
 		nT = 4
 	}
+	forcedT := map[int]ptrans{}
+	if po.fixTs {
+		order = order[:0]
+		for _, t := range po.transforms {
+			order = append(order, t.typ)
+			forcedT[t.typ] = t
+		}
+		nT = len(order)
+	}
 	for _, ty := range order[:nT] {
+		ft, isForced := forcedT[ty]
 		switch ty {
 		case 0:
 			bits := rng.Pick(2, 2, 2, 3, 4, 5, 6, 7, 8, 9)
+			if isForced && ft.bits > 0 {
+				bits = ft.bits
+			}
+			p.cov[fmt.Sprintf("tile-bits:%d", bits)]++
 			modes := rng.Intn(3)
 			one := uint32(rng.Intn(14))
 			lit := litGen(rng, 0xffffffff, func(v uint32) uint32 {
@@ -624,6 +680,10 @@ func genPlan(rng *Rand, maxDim int) *pplan {
 			p.ts = append(p.ts, ptrans{typ: 0, bits: bits, sub: sub(subsample(cw, bits), subsample(p.h, bits), lit)})
 		case 1:
 			bits := rng.Pick(2, 2, 2, 3, 4, 5, 6, 7, 8, 9)
+			if isForced && ft.bits > 0 {
+				bits = ft.bits
+			}
+			p.cov[fmt.Sprintf("tile-bits:%d", bits)]++
 			p.ts = append(p.ts, ptrans{typ: 1, bits: bits, sub: sub(subsample(cw, bits), subsample(p.h, bits), litGen(rng, 0xffffffff, func(v uint32) uint32 { return v }))})
 		case 2:
 			p.ts = append(p.ts, ptrans{typ: 2})
@@ -631,6 +691,9 @@ func genPlan(rng *Rand, maxDim int) *pplan {
 			n := rng.Pick(1, 2, 2, 3, 4, 4, 5, 9, 16, 16, 17, 40, 255, 256)
 			if rng.Intn(3) == 0 {
 				n = rng.Range(1, 256)
+			}
+			if isForced && ft.ncolors > 0 {
+				n = ft.ncolors
 			}
 			p.ts = append(p.ts, ptrans{typ: 3, ncolors: n, sub: sub(n, 1, litGen(rng, 0xffffffff, func(v uint32) uint32 { return v }))})
 			cw = subsample(cw, ciBits(n))
@@ -643,8 +706,12 @@ func genPlan(rng *Rand, maxDim int) *pplan {
 	// meta prefix image
 	ngroups := 1
 	gidx := func(int, int) int { return 0 }
-	if rng.Intn(2) == 0 {
+	if (rng.Intn(2) == 0 && !po.fixTs) || po.metaBits > 0 {
 		p.metaBits = rng.Pick(2, 2, 3, 4, 5, 9)
+		if po.metaBits > 0 {
+			p.metaBits = po.metaBits
+		}
+		p.cov[fmt.Sprintf("meta-tile-bits:%d", p.metaBits)]++
 		mw, mh := subsample(cw, p.metaBits), subsample(p.h, p.metaBits)
 		want := rng.Pick(1, 2, 3, 5, 17)
 		switch rng.Intn(12) {
@@ -655,10 +722,16 @@ func genPlan(rng *Rand, maxDim int) *pplan {
 		case 2:
 			want = mw*mh + 1 + rng.Intn(5) // more groups than pixels
 		}
+		if po.metaGroups > 0 {
+			want = po.metaGroups
+		}
 		lit := func(r *Rand, pos int) uint32 {
 			g := uint32(r.Intn(want))
 			if r.Intn(8) == 0 {
 				g = uint32(want - 1)
+			}
+			if po.metaHigh && want > 256 && r.Intn(2) == 0 {
+				g = uint32(256 + r.Intn(want-256)) // red byte non-zero
 			}
 			return uint32(r.Intn(256))<<24 | g<<8 | uint32(r.Intn(256))
 		}
@@ -671,6 +744,9 @@ func genPlan(rng *Rand, maxDim int) *pplan {
 			}
 		}
 		ngroups = mx + 1
+		if mx > p.cov["max:group-index-in-meta-image"] {
+			p.cov["max:group-index-in-meta-image"] = mx
+		}
 		meta := p.meta.pix
 		mb := p.metaBits
 		gidx = func(x, y int) int { return int(meta[(y>>mb)*mw+(x>>mb)]>>8) & 0xffff }
@@ -687,9 +763,57 @@ func genPlan(rng *Rand, maxDim int) *pplan {
 			p.cov["meta:1-group"]++
 		}
 	}
-	p.main = genEimg(rng.Fork(), eimgOpts{w: cw, h: p.h, lit: litGen(rng, 0xffffffff, func(v uint32) uint32 { return v }),
-		gidx: gidx, ngroups: ngroups, maxCache: rng.Pick(0, 2, 6, 11, 11), copyProb: rng.Pick(0, 5, 20, 50), cov: p.cov})
+	mainLit := litGen(rng, 0xffffffff, func(v uint32) uint32 { return v })
+	if po.randomLits {
+		mainLit = func(r *Rand, pos int) uint32 { return uint32(r.U64()) }
+	}
+	mo := eimgOpts{w: cw, h: p.h, lit: mainLit,
+		gidx: gidx, ngroups: ngroups, maxCache: rng.Pick(0, 2, 6, 11, 11), copyProb: rng.Pick(0, 5, 20, 50), cov: p.cov, forceCB: po.cacheBits}
+	if po.allDCs {
+		for dc := 1; dc <= 120; dc++ {
+			mo.forceDCs = append(mo.forceDCs, dc)
+		}
+	}
+	p.main = genEimg(rng.Fork(), mo)
+	// palette index beyond the palette (denotes transparent black): observable when the colour-indexing
+	// transform is the last one in the stream, i.e. its inverse reads the entropy-coded pixels directly
+	if n := len(p.ts); n > 0 && p.ts[n-1].typ == 3 {
+		nc, wb := p.ts[n-1].ncolors, ciBits(p.ts[n-1].ncolors)
+		bpp := 8 >> wb
+		for _, v := range p.main.pix {
+			g := int(v>>8) & 255
+			for k := 0; k < 1<<wb; k++ {
+				if (g>>(k*bpp))&(1<<bpp-1) >= nc {
+					p.cov["index:palette-index-beyond-palette"]++
+					k = 99
+				}
+			}
+		}
+	}
 	return p
+}
+
+// coverPlans: plans that hit, in every run, the features a random draw may miss.
+func coverPlans(rng *Rand) []*pplan {
+	var ps []*pplan
+	// > 256 prefix-code groups, tiles referring to groups >= 256 (red byte of the entropy image), random
+	// literals so that every group has its own codes
+	for i := 0; i < 3; i++ {
+		ps = append(ps, genPlanOpts(rng.Fork(), 0, planOpts{w: rng.Range(16, 28), h: rng.Range(12, 20), fixTs: true,
+			metaBits: 2, metaGroups: 300 + 40*i, metaHigh: true, randomLits: true}))
+	}
+	// every distance code 1..120
+	ps = append(ps, genPlanOpts(rng.Fork(), 0, planOpts{w: 20, h: 24, fixTs: true, allDCs: true}))
+	ps = append(ps, genPlanOpts(rng.Fork(), 0, planOpts{w: 5, h: 40, fixTs: true, allDCs: true, cacheBits: 11}))
+	// cache bits 11, tile bits 9 (predictor, cross-colour, meta)
+	ps = append(ps, genPlanOpts(rng.Fork(), 0, planOpts{w: 19, h: 11, fixTs: true, cacheBits: 11, metaBits: 9,
+		transforms: []ptrans{{typ: 0, bits: 9}, {typ: 1, bits: 9}}}))
+	// palette indices beyond the palette, for each packing
+	for _, n := range []int{1, 3, 5, 17, 200} {
+		ps = append(ps, genPlanOpts(rng.Fork(), 0, planOpts{w: rng.Range(9, 17), h: rng.Range(3, 8), fixTs: true, randomLits: true,
+			transforms: []ptrans{{typ: 3, ncolors: n}}}))
+	}
+	return ps
 }
 
 func (p *pplan) transformSig() string {
